@@ -71,6 +71,7 @@ def generate(prop, rng, tier):
             "n_train": rng.randint(2, n - 2),
             "target_pos": rng.choice(["last", "last", "first", "middle"]),
             "row_labels": rng.choice([0, 0, 100, 7]),
+            "target_kind": rng.choice(["float", "float", "small", "int"]),
             "classes": rng.choice([2, 3])})
     if n_ds >= 2 and rng.random() < 0.5:
         for ds in datasets[1:]:
@@ -168,6 +169,10 @@ def _make_data(scen):
                 target = str(i % ds["classes"])
             else:
                 target = float(np.round(rs.normal(), 3))
+                if ds.get("target_kind") == "small":
+                    target = float("%.7f" % (target * 1e-4))   # more decimals than "%.6f" keeps
+                elif ds.get("target_kind") == "int":
+                    target = int(round(target * 10))  # counts: an integer-dtype target column
             rows.append((cells, target))
         out[ds["name"]] = rows
         base += 100
